@@ -38,9 +38,13 @@ type c30SDPIn struct {
 	// Deferred: the transports come up only after all signalling, so the
 	// startRTP work captured by each negotiation runs at the end, in order
 	// (in production it waits behind startTransports on the operations queue)
-	Deferred bool   `json:"deferred,omitempty"`
-	Origin   string `json:"origin,omitempty"`
-	Readable string `json:"readable,omitempty"` // the text again, for humans reading replays
+	Deferred bool `json:"deferred,omitempty"`
+	// AfterClose: the application closes the PeerConnection before the
+	// deferred startRTP work runs (Close does not stop the operations queue);
+	// AddTransceiverFromKind then fails whatever codecs are registered
+	AfterClose bool   `json:"after_close,omitempty"`
+	Origin     string `json:"origin,omitempty"`
+	Readable   string `json:"readable,omitempty"` // the text again, for humans reading replays
 }
 
 func c30SDPType(s string) webrtc.SDPType {
@@ -160,6 +164,9 @@ func c30SDPChild(in c30SDPIn) (V, Verdict) {
 			})
 		}
 		startReceivers("start-receivers2")
+	}
+	if in.AfterClose {
+		st.step("close", func() error { return pc.Close() })
 	}
 	for i, run := range deferred {
 		run := run
@@ -295,6 +302,13 @@ func c30GenSDP(r *Rand, i int) c30SDPIn {
 		in.Deferred = r.Bool()
 		origin += "+second"
 	}
+	if !in.Deferred && r.Chance(1, 5) {
+		in.Deferred = true
+	}
+	if in.Deferred && r.Chance(1, 2) {
+		in.AfterClose = true
+		origin += "+close-first"
+	}
 	in.Origin = origin
 	in.Readable = strings.ToValidUTF8(string(in.Text), "?")
 	return in
@@ -320,6 +334,11 @@ func c30ShrinkSDP(in c30SDPIn) []c30SDPIn {
 	if in.Interceptors {
 		c := in
 		c.Interceptors = false
+		out = append(out, c)
+	}
+	if in.AfterClose {
+		c := in
+		c.AfterClose = false
 		out = append(out, c)
 	}
 	lines := bytes.Split(in.Text, []byte("\r\n"))
@@ -908,6 +927,10 @@ func init() {
 			}
 			for sem := 0; sem < 3; sem++ {
 				out = append(out, c30SDPIn{Sem: sem, Codecs: 1, Type: "offer", Text: w, Answer: true, Origin: "planb-witness", Readable: string(w)})
+				// same section, all codecs registered, but the connection is closed
+				// before the queued startRTP work runs
+				out = append(out, c30SDPIn{Sem: sem, Codecs: 3, Type: "offer", Text: w, Answer: true, Deferred: true, AfterClose: true,
+					Origin: "planb-witness-closed", Readable: string(w)})
 			}
 			// a renegotiation that replaces a simulcast (rid) section by an
 			// SSRC-declared one before the transports are up: the startRTP work
